@@ -6,8 +6,9 @@
 (*   analysed(parts,sweeps) - the standard pipeline ran on a clone of the    *)
 (*                            same parsed program: must equal the first run  *)
 (*   extra(pass,parts,sweeps) - one more pass ran: observables unchanged     *)
-(* Sweep bound: every pass run needs at most 2 * N + 3 sweeps.               *)
-EXTENDS Integers, Sequences, TLC, Json, IOUtils
+(* Sweep bound: PassOps!SweepLimit(N) = 4 * N + 3 (PassLoop.tla: 4 * N - 1     *)
+(* is reached by chains of dead loops).                                       *)
+EXTENDS Integers, Sequences, TLC, Json, IOUtils, PassOps
 Rec == ndJsonDeserialize(IOEnv.TRACE)
 VARIABLES l, cur, first
 vars == <<l, cur, first>>
@@ -23,7 +24,7 @@ Diff(a, b, i, pre) ==
 RECURSIVE SweepBad(_, _, _)
 SweepBad(sw, n, i) ==
   IF i > Len(sw) THEN <<>>
-  ELSE (IF sw[i].n > 2 * n + 3 THEN << "C12:sweeps-exceed-2N+3:" \o sw[i].pass >> ELSE <<>>) \o SweepBad(sw, n, i + 1)
+  ELSE (IF sw[i].n > SweepLimit(n) THEN << "C12:sweeps-exceed-limit:" \o sw[i].pass >> ELSE <<>>) \o SweepBad(sw, n, i + 1)
 
 RECURSIVE Report(_, _, _)
 Report(e, bad, i) ==
